@@ -13,7 +13,7 @@ import (
 
 func init() {
 	register(&Prop{ID: "C04", Run: runC04, MinNontrivial: 500,
-		Rule:        "cases = the C01 presentation list (transformer shapes, fuzzed trees, unmodified genuine responses with Response-level and/or assertion-level signatures, plain or encrypted) and the C10 logout list (all signing states), each presented to an SP with signature checking on and to a twin with it off; oracle: (i) an indicator is true only for an element the generator signed with a store key and whose returned fields equal the signed record, (ii) skip => every indicator false, (iii) checking on, accepted, Response indicator false => every returned assertion marked validated, (iv) AssertionInfo.ResponseSignatureValidated == Response.SignatureValidated; non-trivial = accepted by at least one of the twins; distinct by hash of the document and configuration; class nested-signed-assertion-in-advice (signed Response, top-level assertions with and without own signature, signed assertions nested in Advice); shared IDs among the top-level assertions of the nested class",
+		Rule:        "cases = the C01 presentation list (transformer shapes, fuzzed trees, unmodified genuine responses with Response-level and/or assertion-level signatures, plain or encrypted) and the C10 logout list (all signing states), each presented to an SP with signature checking on and to a twin with it off; oracle: (i) an indicator is true only for an element the generator signed with a store key and whose returned fields equal the signed record, (ii) skip => every indicator false, (iii) checking on, accepted, Response indicator false => every returned assertion marked validated, (iv) AssertionInfo.ResponseSignatureValidated == Response.SignatureValidated; non-trivial = accepted by at least one of the twins; distinct by hash of the document and configuration; class nested-signed-assertion-in-advice (signed Response, top-level assertions with and without own signature, signed assertions nested in Advice); shared IDs among the top-level assertions of the nested class; one encrypted top-level assertion among plain ones in the nested class",
 		Assumptions: []string{"same simulator assumptions as C01/C10"}})
 }
 
